@@ -215,6 +215,9 @@ func (f *FuncVC) rangeNext(st *State, x *ssa.Next) *Val {
 	k := f.freshTyped(st, mt.Key(), "nxt.k")
 	kt, _, _ := f.keyTerm(k, mt.Key())
 	f.assume(st, implies(okT, and(sel(sel(dom, it.T), kt), not(sel(sel(seen, it.T), kt)))))
+	// the iteration ends exactly when every key has been produced
+	q := f.sc.fresh("k")
+	f.assume(st, implies(not(okT), "(forall (("+q+" "+ksort+")) (! (=> (select (select "+dom+" "+it.T+") "+q+") (select (select "+seen+" "+it.T+") "+q+")) :pattern ((select (select "+seen+" "+it.T+") "+q+"))))"))
 	f.setHeap(st, sn, ss, ite(okT, store(seen, it.T, store(sel(seen, it.T), kt, "true")), seen))
 	f.setHeap(st, "R:cnt", "(Array Int Int)", ite(okT, store(cnt, it.T, arith("+", sel(cnt, it.T), "1")), cnt))
 	v := build(mt.Elem(), func(l Leaf) string {
